@@ -4,7 +4,7 @@ from .. import lib, scen, runner, declgen, inigen, units
 from . import common, parsecheck
 
 INI_KEYS = ["panic", "err", "vals", "calls", "bytes"]
-PROFILE = dict(p_bad_default=0.0, p_required=0.03, p_commands=0.45, p_group=0.45, p_namespace=0.6, p_ininame=0.3, p_inicross=0.12, p_noini=0.06, p_hidden=0.05,
+PROFILE = dict(p_addoption=0.08, p_bad_default=0.0, p_required=0.03, p_commands=0.45, p_group=0.45, p_namespace=0.6, p_ininame=0.3, p_inicross=0.12, p_noini=0.06, p_hidden=0.05,
                p_default=0.25, p_env=0.05, p_init=0.1, p_choice=0.08, p_positional=0.1, p_help=0.3)
 
 
@@ -80,7 +80,9 @@ def c13_equivalence_stream(rep, rng, n):
                     continue
                 flags_.append(b"--" + g.qlong(sc, o) + b"=" + v)
             en = inigen.entry_name(rng, sc, o)
-            if allnames.get(en, 0) != 1 or allnames.get(en.lower(), 0) > 1:
+            ql = g.qlong(sc, o)
+            if allnames.get(en, 0) != 1 or allnames.get(en.lower(), 0) > 1 or allnames.get(ql, 0) != 1:
+                # the entry name, and the long name used for the equivalent flag, must each denote exactly this option
                 flags_.pop()
                 continue
             entries.append(en + rng.choice([b"=", b" = ", b"\t=  "]) + v)
